@@ -3,6 +3,8 @@ from fractions import Fraction as F
 
 import numpy as np
 
+import zlib
+
 from .. import core, spaces
 from ..refmodel import tables as T
 
@@ -72,6 +74,9 @@ def check_case(case):
     sig_prof = {}
     wins = range(1, N + 4) if N <= 16 else sorted({1, 2, 4, 5, 6, 8, 9, 12, N // 2, 128, 129, 200, 256, 257, N - 1, N, N + 1, N + 2}
                                                    if N > 200 else {1, 2, 4, 5, 6, 8, 9, 12, N // 2, N - 1, N, N + 1, N + 2})
+    wins = list(wins)
+    if case.get("rejected_first") or zlib.crc32(seq.encode()) % 4 == 0:
+        wins = [N + 2] + wins        # the (rejected) too-long window is asked FIRST on this object, the valid ones afterwards
     for w in wins:
         for name, g in getters:
             calls += 1
@@ -153,6 +158,21 @@ def check_case(case):
 def shard(s):
     acc = core.Acc()
     L, pre = s
+    if pre == "REJECTED-FIRST":
+        # freshly imported package; the very first profile requests of the process are rejected ones (window > N), on every getter
+        # with default and explicit groups; the usual battery follows
+        from ..engines.history import fresh_world
+        fresh_world()
+        for seq in ("KEGP", "KKEEGPGPKE", "GGGG"):
+            v, calls = check_case({"kind": "profiles", "seq": seq, "rejected_first": True, "fresh": True})
+            acc.states += 1
+            acc.traces += 1
+            acc.transitions += calls
+            acc.evaluations += calls
+            acc.nontrivial += 1
+            for x in v:
+                acc.viol(x["key"], x["what"], x["case"])
+        return acc
     words = spaces.window_complete_chunks(ALPHA, 4, (L,)) if pre == "DB" else spaces.shard_words(ALPHA, L, pre)
     for seq in words:
         v, calls = check_case({"kind": "profiles", "seq": seq})
@@ -181,14 +201,14 @@ def run(tier, seed, t0):
     extra = [(L, pre) for L, pre in [(8, "KEGP"), (9, "PGEKK"), (12, "KKEEGGPPKE")]]
     extra += [(44, ("KEGP" * 11)[:42]), (64, ("KKEGPGEEKP" * 7)[:63]), (131, ("KEGPPGEK" * 17)[:130]),
               (300, ("EK" * 150)[:299]), (301, ("K" * 301)[:300]), (270, ("KKKE" * 70)[:269])]
-    extra += [(21, "DB"), (34, "DB")]
+    extra += [(21, "DB"), (34, "DB"), (0, "REJECTED-FIRST")]
     acc = core.pmap(shard, shards + extra)
     return core.finish(
         PROP, tier, seed, acc, t0,
         rule="every word over {K,E,G,P} of length 1..%d (plus all completions of three 8-12-mer prefixes, and 44-, 64- and 131-residue sequences with 13 selected windows) x every "
              "window 1..N+3 x {get_linear_NCPR, FCR, sigma, hydropathy} + get_linear_sequence_composition with default, explicit-default "
              "and 5 user group lists: shape (2,N), positions 1..N, entry i+floor((w-1)/2) = exact statistic of window i, flanks 0, "
-             "w=N equals the whole-sequence getter, w>N must raise, and delta == mean over w=5,6 of the mean squared deviation of "
+             "w=N equals the whole-sequence getter, w>N must raise (for a quarter of the words the rejected window is asked first and the valid ones afterwards on the same object; in a freshly imported package the first requests of the process are rejected ones), and delta == mean over w=5,6 of the mean squared deviation of "
              "the sigma profile from the global sigma; non-trivial = words with >=2 distinct letters" % N,
         bounds={"N": N, "windows": "1..N+3", "user_group_lists": len(USER_GROUPS)},
         assumptions=["hydropathy profile is on the Uversky-normalised Kyte-Doolittle scale (it equals get_uversky_hydropathy at w=N)",
@@ -196,4 +216,7 @@ def run(tier, seed, t0):
 
 
 def replay(case):
+    if case.get("fresh"):
+        a = shard((0, "REJECTED-FIRST"))
+        return [x for x in a.violations if x["key"] == case.get("key", x["key"])] or a.violations
     return check_case(case)[0]
